@@ -310,6 +310,14 @@ func (c *oCache) TryRemove(id string) (ok bool, err error) {
 		c.mu.Unlock()
 		return false, ErrNotExists
 	}
+	// Same filter as GC: only an active entry has a value to TryClose. An entry
+	// whose load is still in flight has a nil value (calling TryClose on it
+	// panics) and must not be moved to closing; one that is being closed is
+	// already owned by another closer.
+	if !e.isActive() {
+		c.mu.Unlock()
+		return false, nil
+	}
 
 	c.mu.Unlock()
 
